@@ -127,6 +127,31 @@ def awkward_dt(rng, k):
     return float(10.0 ** rng.uniform(-3, 0))
 
 
+def special_scale(rng, x):
+    """the same sign/turning-point pattern as x at a numerically special but valid scale (all values are finite doubles):
+    uniformly tiny or huge (products of two samples or steps under/overflow: |x| < 1e-162 or > 1e154), an extreme dynamic range
+    inside one record, a small ripple on a large baseline (levels closer than float32 resolution), integer counts above 2**24.
+    Returns (array, class suffix)."""
+    x = np.asarray(x, dtype=float)
+    m = float(np.max(np.abs(x))) if x.size else 0.0
+    if m == 0 or not np.isfinite(m):
+        return x, ''
+    k = int(rng.integers(5))
+    if k == 0:
+        return x / m * 10.0 ** (-rng.uniform(165, 300)), '-extreme-tiny'
+    if k == 1:
+        return x / m * 10.0 ** rng.uniform(155, 300), '-extreme-huge'
+    if k == 2:
+        y = x / m * 10.0 ** (-rng.uniform(60, 150))
+        j = 0 if rng.random() < 0.4 else int(rng.integers(len(y)))
+        y[j] = float(rng.choice([-1.0, 1.0])) * 10.0 ** rng.uniform(60, 150)
+        return y, '-extreme-range'
+    if k == 3:
+        base = float(rng.choice([-1.0, 1.0])) * 10.0 ** rng.uniform(0, 12)
+        return base + x / m * abs(base) * 10.0 ** (-rng.uniform(8, 13)), '-ripple-on-baseline'
+    return float(2 ** int(rng.integers(24, 50))) + np.round(x / m * float(rng.integers(1, 6))), '-counts-above-2**24'
+
+
 def container(rng, x, kinds=('f64', 'f32', 'i64', 'list', 'tuple')):
     """Return (container, kind): the same numbers as another container/dtype (ints rounded)."""
     k = kinds[int(rng.integers(len(kinds)))]
